@@ -393,9 +393,9 @@ class Tr:
             if v[1] == VEC:
                 return (f"(List.map (fun t => WS.absR t) {v[0]})", VEC)
             raise Untranslatable("abs of " + v[1])
-        if fn in ("np.minimum", "np.maximum") and len(e.args) == 2 and not kw:
+        if fn in ("np.minimum", "np.maximum", "min", "max") and len(e.args) == 2 and not kw:
             a, b = self.tr(e.args[0]), self.tr(e.args[1])
-            f = "WS.minR" if fn == "np.minimum" else "WS.maxR"
+            f = "WS.minR" if fn in ("np.minimum", "min") else "WS.maxR"
             return (f"({f} {self.rat_of(a)} {self.rat_of(b)})", RAT)
         if fn == "np.mod" and len(e.args) == 2 and not kw:
             a, b = self.tr(e.args[0]), self.tr(e.args[1])
